@@ -36,6 +36,17 @@ def gen(tier, rng, shard, nshards):
             node = {"k": "Scaled", "c": c, "arg": node}
             if psd:
                 node = {"k": "Annot", "name": "PSD", "arg": node}
+        if krylov_wish and rng.random() < 0.5:
+            # an operator that reaches the Krylov base case as a whole and has |det| < 1 (structural rules would peel a
+            # scalar factor off before the base case sees it)
+            inner = {"k": S.pick(rng, ["Dense", "Generic"]), "shape": [n, n], "dt": dt, "seed": S.seed(rng), "gen": "herm",
+                     "eigs": W.lin(0.3, 0.9, n)}
+            node = {"k": "Annot", "name": "PSD", "arg": inner} if psd else inner
+            if rng.random() < 0.3:
+                node = {"k": "Sum", "via": "ctor", "args": [node, dict(node, **({"arg": dict(inner, seed=S.seed(rng))} if psd else {"seed": S.seed(rng)}))]}
+                node["args"] = [{"k": "Scaled", "c": 0.5, "arg": a} if not psd else a for a in node["args"]]
+                if psd:
+                    node = {"k": "Annot", "name": "PSD", "arg": {"k": "Scaled", "c": 0.5, "arg": node}}
         if psd:
             la = S.pick(rng, ["Lanczos", "Arnoldi"] if krylov_wish else [OMIT, "Auto", "Cholesky", "LU", "Lanczos", "Arnoldi"])
         else:
